@@ -261,6 +261,30 @@ def execute(case):
                         violations.extend(pending)
                 check_note(w, l, t, violations, i, wrote)
                 check_pattern_raw(w, violations, i)
+            elif k in ("cellobj", "swap_lines", "reverse_line"):
+                # the public grid is a list of lists: cells may be replaced by new Note objects,
+                # lines swapped or reversed; the byte image is still the cells in row-major order
+                from rv.note import Note
+
+                d = w.pattern.data
+                if k == "cellobj":
+                    l, t = op["l"] % lines, op["t"] % tracks
+                    v = op["v"]
+                    vals = [NOTE_VALUES[v % len(NOTE_VALUES)], (v >> 8) % 130, (v >> 16) & 0xFFFF, (v >> 32) & 0xFFFF, (v >> 48) & 0xFFFF]
+                    d[l][t] = Note(note=vals[0], vel=vals[1], module=vals[2], ctl=vals[3], val=vals[4], pattern=w.pattern if v & (1 << 62) else None)
+                    w.cells[l][t] = vals
+                elif k == "swap_lines":
+                    a_, b_ = op["a"] % lines, op["b"] % lines
+                    d[a_], d[b_] = d[b_], d[a_]
+                    w.cells[a_], w.cells[b_] = w.cells[b_], w.cells[a_]
+                else:
+                    l = op["l"] % lines
+                    d[l].reverse()
+                    w.cells[l].reverse()
+                probes["grid_structure_edit"] = probes.get("grid_structure_edit", 0) + 1
+                raw_first(w, violations, i, "after_" + k)
+                hold(w)
+                check_pattern_raw(w, violations, i)
             elif k == "image":
                 r = seeds.rng(op.get("seed", 0), "image")
                 cells = [[[r.choice(NOTE_VALUES), r.randrange(130), r.getrandbits(16), r.getrandbits(16), r.getrandbits(16)] for _ in range(tracks)] for _ in range(lines)]
@@ -401,7 +425,8 @@ def generate(seed, i, tier="quick"):
         ops = [{"k": "setup_file", "f": r.randrange(5)}]
     else:
         ops = [{"k": "setup", "lines": r.randrange(8), "tracks": r.randrange(4), "nmods": r.randrange(4)}]
-    kinds = ["nsub"] * 6 + ["nword"] * 2 + ["nprim"] * 2 + ["image", "vsub", "vsub", "vsub", "vword", "midi", "midi", "sync", "sync", "save_load"]
+    kinds = ["nsub"] * 6 + ["nword"] * 2 + ["nprim"] * 2 + ["image", "image", "cellobj", "swap_lines", "reverse_line", "vsub", "vsub", "vsub", "vword", "midi", "midi", "sync", "sync", "save_load"]
+    image_pool = [r.getrandbits(30), r.getrandbits(30)]  # images recur within a run (the same bytes assigned again)
     focus_cell = (r.randrange(8), r.randrange(4))
     for _ in range(r.randint(5, 60)):
         k = r.choice(kinds)
@@ -410,7 +435,13 @@ def generate(seed, i, tier="quick"):
             l, t = focus_cell if r.random() < 0.7 else (r.randrange(8), r.randrange(4))
             op.update(l=l, t=t, f=r.randrange(12), v=r.choice([0, 0xFF, 0xFFFF, 1, 0x80, r.getrandbits(16), r.getrandbits(16)]), held=r.random() < 0.5)
         elif k == "image":
-            op["seed"] = r.getrandbits(30)
+            op["seed"] = r.choice(image_pool) if r.random() < 0.7 else r.getrandbits(30)
+        elif k == "cellobj":
+            op.update(l=r.randrange(8), t=r.randrange(4), v=r.getrandbits(63))
+        elif k == "swap_lines":
+            op.update(a=r.randrange(8), b=r.randrange(8))
+        elif k == "reverse_line":
+            op.update(l=r.randrange(8))
         elif k in ("vsub", "vword"):
             op.update(m=r.randrange(4) if r.random() < 0.3 else 0, f=r.randrange(6), v=r.getrandbits(40))
         elif k == "midi":
